@@ -92,7 +92,7 @@ def get_next_linebox(context, linebox, position_y, bottom_space, skip_stack,
         line_children = []
 
         (line, resume_at, preserved_line_break, first_letter,
-         last_letter, float_widths) = split_inline_box(
+         last_letter, float_width) = split_inline_box(
              context, linebox, position_x, max_x, bottom_space, skip_stack,
              containing_block, line_absolutes, line_fixed, line_placeholders,
              waiting_floats, line_children)
@@ -121,10 +121,13 @@ def get_next_linebox(context, linebox, position_y, bottom_space, skip_stack,
         # See https://github.com/Kozea/WeasyPrint/issues/583
         line.position_y = position_y
 
-        # Floats next to any part of the line box shorten it
-        linebox.height = line.height
+        # Floats next to any part of the line box shorten it. The line stays
+        # where it is, whether it fits between them or not: an empty box gives
+        # the bounds at its position.
+        linebox.width, linebox.height = 0, line.height
         new_position_x, new_position_y, new_available_width = (
             avoid_collisions(context, linebox, containing_block, outer=False))
+        linebox.width = line.width
         offset_x = text_align(
             context, line, new_available_width,
             last=(resume_at is None or preserved_line_break))
@@ -134,11 +137,6 @@ def get_next_linebox(context, linebox, position_y, bottom_space, skip_stack,
             if new_position_y == position_y:
                 # The line ends at the right bound left by the floats
                 offset_x += new_position_x - line.position_x
-            else:
-                # The line does not fit beside the floats, it ends at the left
-                # of the right floats met in the line
-                offset_x -= float_widths['right']
-                offset_x -= line.position_x - original_position_x
         elif new_position_y == position_y:
             # A float met in the line and placed below the line has pushed
             # the children of the line: the line starts at the left bound
@@ -513,7 +511,7 @@ def split_inline_level(context, box, position_x, max_x, bottom_space,
         if box.margin_right == 'auto':
             box.margin_right = 0
         (new_box, resume_at, preserved_line_break, first_letter,
-         last_letter, float_widths) = split_inline_box(
+         last_letter, float_width) = split_inline_box(
              context, box, position_x, max_x, bottom_space, skip_stack,
              containing_block, absolute_boxes, fixed_boxes, line_placeholders,
              waiting_floats, line_children)
